@@ -1043,6 +1043,7 @@ func iterNestedReadOnly(cfg *Config, st *hx.Stats, w *hx.W, rng *rand.Rand, p in
 		e.iterateChildren("reloaded parent", pa2, pm2)
 		e.st.Hit("nestchild:after-reload")
 	}
+	e.loadedPartial("committed parent")
 	for round := 0; round < 2 && !e.failed; round++ {
 		e.readOnlyAttempts()
 		if e.failed {
@@ -1053,5 +1054,6 @@ func iterNestedReadOnly(cfg *Config, st *hx.Stats, w *hx.W, rng *rand.Rand, p in
 			return
 		}
 		e.iterateChildren("live parent after mutable-iterator mutations", e.pa, e.pm)
+		e.loadedPartial("committed parent after mutable-iterator mutations")
 	}
 }
